@@ -53,6 +53,10 @@ func c06Cases(tier string) []SchedCase {
 	add(`{ts{name req}}`, planOf("ts[0].req", "error", "ts[1].name", "error"))
 	add(`{t{kidsReq{req}}}`, planOf("t.kidsReq[1].req", "error"))
 	add(`{t{kids{name} ints}}`, planOf("t.kids[0]", "null"))
+	add(`{t{req name kid{name}}}`, planOf("t.req", "error", "t.name", "error", "t.kid.name", "error"))
+	add(`{t{kidReq{id} name}}`, planOf("t.kidReq", "null", "t.name", "error"))
+	add(`mutation{m1{req name} m2{name}}`, planOf("m1.req", "error"))
+	add(`mutation{m1{name req kid{name}} m2{name}}`, planOf("m1.req", "error"))
 	add(`mutation{m1{name req} m2{name} m3}`, nil)
 	add(`mutation{m1{name} m3 m2{req}}`, planOf("m3", "error"))
 	if tier == "thorough" {
